@@ -20,7 +20,9 @@ GENERATED = ["Monitor.lean"]
 
 
 def gen_case(rng):
-    level = rng.choice(["unit", "unit", "udp", "tcp"])
+    level = rng.choice(["unit", "unit", "udp", "tcp", "tcpsrv", "dtlssrv"])
+    stream = level in ("tcp", "tcpsrv")
+    can_fail = level in ("unit", "udp")
     period = rng.choice([100, 1000, 1_000_000, 16_000_000_000 // 3])
     n = rng.choice(["-", "0", "1", "2", "3"])
     lines = ["cfg %s %d %s 0" % (level, period, n)]
@@ -34,7 +36,7 @@ def gen_case(rng):
         gap = rng.choice([1, 1, period // 2, period - 1, period, period + 1, period + 2, 2 * period + 1])
         t += gap
         r = rng.random()
-        if r < 0.55 and n != "-" and level != "tcp" and failing and rng.random() < 0.35:
+        if r < 0.55 and n != "-" and can_fail and failing and rng.random() < 0.35:
             lines.append("tickf %d" % t)     # a housekeeping tick while the network refuses to send
             kinds.add("tick-send-fails")
             sent_fail = True
@@ -46,7 +48,7 @@ def gen_case(rng):
                 lines.append("tick %d" % t)
                 kinds.add("double-tick")
             pings += 1                      # upper bound of generations that may exist
-        elif r >= 0.55 and level == "tcp" and (trickled or rng.random() < 0.2):
+        elif r >= 0.55 and stream and (trickled or rng.random() < 0.2):
             # the stream peer trickles bytes of a frame it never completes: bytes arrive, no message does (and, being in
             # the middle of a frame, the peer cannot send any message afterwards)
             lines.append("trickle %d" % t)
@@ -147,6 +149,13 @@ def explore(ctx, art):
             continue
         if o.startswith("panic") or o in ("bad-op", "conn-error") or "panic" in o:
             ctx.violations.append(common.Violation("no-crash", "C18:" + l, "%s -> %s" % (l, o), {"input": cases[ci][0] + ["end"], "observed": o}))
+            continue
+        if "close-talkative" in o:
+            # server levels: the connection of the peer that is heard from right before every tick was closed by its monitor
+            first = sum(1 for k in range(i + 1) if owner[k] == ci)
+            ctx.violations.append(common.Violation("closed-only-if-silent-for-period", "C18:server-closed-talkative-peer",
+                                                   "%s (%s): the monitor closed the connection of a peer that had sent a message right before this tick" % (l, cases[ci][0][0]),
+                                                   {"input": cases[ci][0][:first] + ["end"], "observed": o}))
             continue
         if judge is not None and judge[i] != "ok":
             bad.setdefault(ci, (i, "%s: observed `%s`: %s" % (l, o, judge[i])))
